@@ -165,7 +165,10 @@ class ImageTransformer(SpatialTransformer):
         )
         self._sample = sampler.to(device)
         self._target_grid = target
-        self._same_domain = target.same_domain_as(transform.grid())
+        self._same_domain = (
+            target.same_domain_as(transform.grid())
+            and target.align_corners() == transform.grid().align_corners()
+        )
         self._flip_coords = bool(flip_coords)
         x = target.coords(align_corners=transform.align_corners(), flip=flip_coords, device=device)
         x = target.transform_points(x, axes=transform.axes(), to_grid=transform.grid())
